@@ -139,7 +139,8 @@ def cases(ctx):
                 yield ("types2", t, first, where)
     for i in range(len(INSTR_CASES)):
         yield ("instr", i)
-    for order in product(("blob35", "ign34", "ign48", "main84", "blob3D", "loader70"), repeat=3):
+    # "skip..": a section under an interface the converter does not support (left out, data and all)
+    for order in product(("blob35", "ign34", "ign48", "main84", "blob3D", "loader70", "skip70", "skip84"), repeat=3):
         yield ("multi",) + order
     depth = 5 if ctx.quick else 6
     for n in range(0, depth + 1):
@@ -348,7 +349,9 @@ def run_case(ctx, case):
         idx = 0
         for s in case[1:]:
             t = int(s[-2:], 16)
-            if t == 0x70:
+            if s.startswith("skip"):
+                evs.append(("instr", "SELECT_IF", {"PROTOCOL": "SPI"}))
+            elif t == 0x70:
                 evs.append(("instr", "SELECT_IF", {"PROTOCOL": "BRP-CCID"}))
             else:
                 evs.append(("instr", "SELECT_IF", {"PROTOCOL": "*"}))
